@@ -23,7 +23,16 @@ RULE = ("Entropy of all five lengths incl. all-00/all-ff; random word sequences 
         "negative / out-of-range indices and `in`; UTF-8 of every encoding length class and lone surrogates; PBKDF2 object "
         "sessions (read/hexread/close, reads after close, negative sizes) and hand-set block counters around 2^32-1; "
         "HDPrivateKey.from_mnemonic with root / derived / hardened / malformed paths x four networks x explicit versions "
-        "(fields, xprv(), xpub()), invalid mnemonics, unknown network; HDPrivateKey.generate with randbits/clock replaced.")
+        "(fields, xprv(), xpub()), invalid mnemonics, unknown network; HDPrivateKey.generate with randbits/clock replaced. Entry-point audit: every public way into the mechanism "
+        "with optional arguments left out / by keyword / defaults again after explicit arguments (secure_mnemonic, "
+        "from_mnemonic, generate incl. one version only, PBKDF2 constructor, crypt with and without salt, hmac_sha512_kdf "
+        "with text or bytes), from_shares (recovery replaced by a recorder + SLIP-0039 vector 1), "
+        "calc_valid_seedpicker_checksums (complete for 23 words), newly constructed WordList objects / iteration / keys of "
+        "other types, the generation self-check with a sabotaged decoder; sentences made only of 3-, 4-, 5-, 8-letter "
+        "words and with exactly one word of the other kind, whole-sentence upper/title case, checksum byte 00/ff, "
+        "sentences of 127/128/129 bytes and PBKDF2 keys of block length -1/0/+1; unknown words in valid sentences with the "
+        "neighbour compensating a reading as 0 / -1 / 2048, near spellings of the right word; exactly one word "
+        "shortened / in full; refused PBKDF2 read at block 2^32-1 followed by admissible reads.")
 TRUSTED = ["hashlib/hmac (sha256, hmac-sha512/sha256/sha1): universally quantified functions in the theorems",
            "harness/gen_coq.py copies the word-list files into coq/Generated/Wordlists.v with the same "
            "`read().split()` the library uses",
@@ -483,10 +492,535 @@ def p_pbkdf2_session(specs, ops):
     return None
 
 
+# ---------------------------------------------------------------- entry-point audit: every public way into the mechanism
+# Alternative entry points (from_shares, calc_valid_seedpicker_checksums, crypt, fresh WordList objects, iteration),
+# default arguments (calls that leave optional arguments out, then explicit ones, then the defaults again), hand-built
+# word sequences of unusual classes, lenient-decoder compensation, failure followed by a retry.  The references below use
+# hashlib / hmac / base64 and a twenty-line secp256k1 only.
+
+import base64 as _b64  # noqa: E402
+import itertools as _it  # noqa: E402
+import sys as _sys  # noqa: E402
+from buidl import pbkdf2 as _pbmod  # noqa: E402
+
+_P = 2 ** 256 - 2 ** 32 - 977
+_N = 0xFFFFFFFFFFFFFFFFFFFFFFFFFFFFFFFEBAAEDCE6AF48A03BBFD25E8CD0364141
+_G = (0x79BE667EF9DCBBAC55A06295CE870B07029BFCDB2DCE28D959F2815B16F81798,
+      0x483ADA7726A3C4655DA4FBFC0E1108A8FD17B448A68554199C47D08FFB10D4B8)
+XPRV_V = ["0488ade4", "04358394", "04358394", "04358394"]
+XPUB_V = ["0488b21e", "043587cf", "043587cf", "043587cf"]
+
+
+def _ec_add(a, b):
+    if a is None:
+        return b
+    if b is None:
+        return a
+    if a[0] == b[0]:
+        if (a[1] + b[1]) % _P == 0:
+            return None
+        lam = 3 * a[0] * a[0] * pow(2 * a[1], -1, _P) % _P
+    else:
+        lam = (b[1] - a[1]) * pow(b[0] - a[0], -1, _P) % _P
+    x = (lam * lam - a[0] - b[0]) % _P
+    return (x, (lam * (a[0] - x) - a[1]) % _P)
+
+
+def _ref_sec(k):
+    acc, q = None, _G
+    while k:
+        if k & 1:
+            acc = _ec_add(acc, q)
+        q = _ec_add(q, q)
+        k >>= 1
+    return bytes([2 + (acc[1] & 1)]) + acc[0].to_bytes(32, "big")
+
+
+def _ref_xkeys(sec, cc, net, ver=None, pubver=None, depth=0, fpr=bytes(4), child=0):
+    """(xprv, xpub) of BIP32 for a key given by its fields; versions default to the network's"""
+    ver = ver if ver else bytes.fromhex(XPRV_V[net])
+    pubver = pubver if pubver else bytes.fromhex(XPUB_V[net])
+    mid = bytes([depth]) + fpr + child.to_bytes(4, "big") + cc
+    return (_b58check(ver + mid + b"\x00" + sec.to_bytes(32, "big")), _b58check(pubver + mid + _ref_sec(sec)))
+
+
+def _ref_hardened_child(sec, cc, idx):
+    raw = hmac.new(cc, b"\x00" + sec.to_bytes(32, "big") + idx.to_bytes(4, "big"), hashlib.sha512).digest()
+    fpr = hashlib.new("ripemd160", hashlib.sha256(_ref_sec(sec)).digest()).digest()[:4]
+    return (int.from_bytes(raw[:32], "big") + sec) % _N, raw[32:], fpr
+
+
+def _ref_F(alg, pw, salt, c, i):
+    """block i of PBKDF2 written out (RFC 8018 5.2) — for block numbers no hashlib call reaches"""
+    dg = DIGESTS[alg][0]
+    u = hmac.new(pw, salt + i.to_bytes(4, "big"), dg).digest()
+    acc = int.from_bytes(u, "big")
+    for _ in range(c - 1):
+        u = hmac.new(pw, u, dg).digest()
+        acc ^= int.from_bytes(u, "big")
+    return acc.to_bytes(len(u), "big")
+
+
+def _sentence(entropy):
+    return [REF_WORDS[0][i] for i in ref_indices(entropy)]
+
+
+def _check_key(h, sec, cc, net, ver=None, pubver=None, what="key", depth=0, fpr=bytes(4), child=0):
+    if h is ERR:
+        return f"{what}: raised"
+    xprv, xpub = _ref_xkeys(sec, cc, net, ver, pubver, depth, fpr, child)
+    if (h.private_key.secret, h.chain_code) != (sec, cc):
+        return f"{what}: secret / chain code are not those of BIP39 seed + BIP32 for the arguments given"
+    if (h.depth, h.parent_fingerprint, h.child_number) != (depth, fpr, child):
+        return f"{what}: depth / parent fingerprint / child number wrong"
+    if h.network != NETS[net]:
+        return f"{what}: network is {h.network!r}, asked for {NETS[net]!r}"
+    if h.xprv() != xprv:
+        return f"{what}: xprv() is not Base58Check(version || depth || fpr || child || chain code || 00 || key)"
+    if h.xpub() != xpub:
+        return f"{what}: xpub() is not Base58Check(pub version || ... || compressed point of the key)"
+    return None
+
+
+class _Rng:
+    """replaces mnemonic.randbits / mnemonic.time and remembers how many bits were asked for"""
+
+    def __init__(self, rnd, t):
+        self.rnd, self.t, self.asked = rnd, t, []
+
+    def __enter__(self):
+        self.old = (mnemonic.randbits, mnemonic.time)
+        mnemonic.randbits = self._randbits
+        mnemonic.time = lambda: Fraction(self.t, 1000000)
+        return self
+
+    def _randbits(self, n):
+        self.asked.append(n)
+        return self.rnd
+
+    def __exit__(self, *a):
+        mnemonic.randbits, mnemonic.time = self.old
+
+
+def _ref_secure(nb, extra, rnd, t):
+    e = ((extra & ((1 << nb) - 1)) if extra >= (1 << nb) else extra) ^ t ^ rnd
+    return e.to_bytes(nb // 8, "big")
+
+
+def p_secure_entry(kind, nb, extra, rnd, t):
+    """secure_mnemonic called with arguments left out / by keyword; the defaults are 256 bits and no extra entropy,
+    before and after a call with other explicit arguments; randbits is asked for exactly num_bits bits"""
+    calls = {0: (lambda: mnemonic.secure_mnemonic(), 256, 0),
+             1: (lambda: mnemonic.secure_mnemonic(nb), nb, 0),
+             2: (lambda: mnemonic.secure_mnemonic(extra_entropy=extra), 256, extra),
+             3: (lambda: mnemonic.secure_mnemonic(extra_entropy=extra, num_bits=nb), nb, extra),
+             4: (lambda: mnemonic.secure_mnemonic(nb, extra), nb, extra)}
+    f, wnb, wextra = calls[kind]
+    other_nb = 128 if wnb != 128 else 192
+    steps = [(f, wnb, wextra), (lambda: mnemonic.secure_mnemonic(other_nb, 12345), other_nb, 12345),
+             (lambda: mnemonic.secure_mnemonic(100), None, None),          # refused
+             (lambda: mnemonic.secure_mnemonic(wnb, -1), None, None),      # refused
+             (lambda: mnemonic.secure_mnemonic(wnb, "7"), None, None),     # refused: not an int
+             (f, wnb, wextra)]
+    for i, (g, b, x) in enumerate(steps):
+        with _Rng(rnd & ((1 << b) - 1) if b else rnd, t) as rg:
+            got = _tryE(g)
+        if b is None:
+            if got is not ERR:
+                return f"call {i}: secure_mnemonic accepted inadmissible arguments"
+            continue
+        if got is ERR:
+            return f"call {i}: secure_mnemonic raised"
+        if not rg.asked or any(n != b for n in rg.asked):
+            return f"call {i}: randbits was asked for {rg.asked} bits, the mnemonic has {b} bits of entropy"
+        if ref_decode(got) != _ref_secure(b, x, rnd & ((1 << b) - 1), t) or got != " ".join(_sentence(ref_decode(got))):
+            return (f"call {i}: secure_mnemonic (num_bits {'default' if kind in (0, 2) and g is f else b}) is not the BIP39 "
+                    f"sentence of randbits({b}) ^ extra_entropy ^ time")
+    return None
+
+
+def p_self_check(kind, nb, rnd):
+    """generation self-check: when encoder and decoder disagree secure_mnemonic must not hand out a mnemonic"""
+    real_dec, real_enc = mnemonic.mnemonic_to_bytes, mnemonic.bytes_to_mnemonic
+    try:
+        if kind == 1:
+            mnemonic.mnemonic_to_bytes = lambda m: bytes(a ^ 1 for a in real_dec(m))
+        elif kind == 2:
+            mnemonic.bytes_to_mnemonic = lambda b, n: " ".join(_sentence(b[:-1] + bytes([b[-1] ^ 1])))
+        elif kind == 3:
+            mnemonic.mnemonic_to_bytes = lambda m: real_dec(m)[:-1]
+        with _Rng(rnd, 0):
+            got = _tryE(mnemonic.secure_mnemonic, nb)
+    finally:
+        mnemonic.mnemonic_to_bytes, mnemonic.bytes_to_mnemonic = real_dec, real_enc
+    if kind == 0:
+        return None if got is not ERR and ref_decode(got) == rnd.to_bytes(nb // 8, "big") else "control: no mnemonic produced"
+    if got is not ERR:
+        return "secure_mnemonic returned a mnemonic although decoding it does not give back the generated entropy"
+    return None
+
+
+def _fm(*a, **kw):
+    """HDPrivateKey.from_mnemonic with the KDF output observed"""
+    seen = []
+    real = hd.hmac_sha512_kdf
+
+    def spy(msg, salt):
+        s = real(msg, salt)
+        seen.append(s)
+        return s
+    hd.hmac_sha512_kdf = spy
+    try:
+        h = _tryE(hd.HDPrivateKey.from_mnemonic, *a, **kw)
+    finally:
+        hd.hmac_sha512_kdf = real
+    return seen, h
+
+
+def p_seed_text(t, pw):
+    """from_mnemonic on a hand-built word sequence: rejected exactly when BIP39 rejects it, else seed, key, xprv and
+    xpub are those of the sentence with every word spelled in full"""
+    text = _txt(t)
+    e = ref_decode(text)
+    seen, h = _fm(text, pw)
+    if e is None:
+        return None if h is ERR else "from_mnemonic derived a key from a word sequence that BIP39 rejects"
+    if h is ERR:
+        return "from_mnemonic rejected a valid word sequence"
+    seed, sec, cc = ref_seed([REF_WORDS[0][REF_LOOKUP[0][w]] for w in text.split()], pw)
+    if seen != [seed]:
+        return "seed is not PBKDF2-HMAC-SHA512(full-word sentence, 'mnemonic'+passphrase, 2048, 64)"
+    return _check_key(h, sec, cc, 0, what="from_mnemonic(text, password)")
+
+
+def p_from_mnemonic_entry(kind, entropy, pw, net, ver, pubver):
+    """from_mnemonic with optional arguments left out / by keyword / only one of the two versions; a call with the
+    defaults gives the same key before and after a call with explicit arguments, and earlier results stay what they were"""
+    ver, pubver = _opt(ver), _opt(pubver)
+    ws = _sentence(entropy)
+    m = " ".join(ws)
+    F = hd.HDPrivateKey.from_mnemonic
+    if kind == 0:
+        steps = [(lambda: F(m), b"", 0, None, None)]
+    elif kind == 1:
+        steps = [(lambda: F(m, pw), pw, 0, None, None)]
+    elif kind == 2:
+        steps = [(lambda: F(m, network=NETS[net], password=pw), pw, net, None, None)]
+    elif kind == 3:
+        steps = [(lambda: F(m, pw, "m", NETS[net], ver, pubver), pw, net, ver, pubver)]
+    elif kind == 4:
+        steps = [(lambda: F(mnemonic=m, priv_version=ver), b"", 0, ver, None)]
+    elif kind == 5:
+        steps = [(lambda: F(m, pub_version=pubver, network=NETS[net]), b"", net, None, pubver)]
+    else:
+        steps = [(lambda: F(m), b"", 0, None, None),
+                 (lambda: F(m, pw, "m", NETS[net], ver, pubver), pw, net, ver, pubver),
+                 (lambda: F(m + " " + ws[0], pw), None, 0, None, None),       # refused
+                 (lambda: F(m), b"", 0, None, None)]
+    made = []
+    for i, (g, p, n, v, pv) in enumerate(steps):
+        h = _tryE(g)
+        if p is None:
+            if h is not ERR:
+                return f"call {i}: a sentence with one word too many was accepted"
+            continue
+        _seed, sec, cc = ref_seed(ws, p)
+        made.append((i, h, sec, cc, n, v, pv))
+        for (j, hj, s, c, nn, vv, pvv) in made:          # every result so far, again
+            bad = _check_key(hj, s, c, nn, vv, pvv, what=f"result of call {j} (looked at after call {i})")
+            if bad:
+                return bad
+        if h.priv_version != (v or bytes.fromhex(XPRV_V[n])) or h.pub.pub_version != (pv or bytes.fromhex(XPUB_V[n])):
+            return f"call {i}: priv_version / pub_version attribute is not the one given (or the network's default)"
+    return None
+
+
+def p_generate_entry(kind, pw, extra, rnd, t, net, ver, pubver):
+    """HDPrivateKey.generate with optional arguments left out / versions given: 256 bits are drawn, the mnemonic is
+    their BIP39 sentence and the key is its BIP32 master key under the given network and versions"""
+    ver, pubver = _opt(ver), _opt(pubver)
+    G = hd.HDPrivateKey.generate
+    calls = {0: (lambda: G(), b"", 0, 0, None, None),
+             1: (lambda: G(pw), pw, 0, 0, None, None),
+             2: (lambda: G(extra_entropy=extra, password=pw), pw, extra, 0, None, None),
+             3: (lambda: G(pw, extra, NETS[net], ver, pubver), pw, extra, net, ver, pubver),
+             4: (lambda: G(network=NETS[net], priv_version=ver), b"", 0, net, ver, None),
+             5: (lambda: G(network=NETS[net], pub_version=pubver), b"", 0, net, None, pubver),
+             6: (lambda: G(network=NETS[net]), b"", 0, net, None, None)}
+    g, p, x, n, v, pv = calls[kind]
+    for i in range(2):
+        with _Rng(rnd, t) as rg:
+            got = _tryE(g)
+        if got is ERR:
+            return "generate raised"
+        m, h = got
+        if rg.asked != [256]:
+            return f"generate asked randbits for {rg.asked} bits instead of 256 once"
+        ws = _sentence(_ref_secure(256, x, rnd, t))
+        if m != " ".join(ws):
+            return "generate(): the mnemonic is not the BIP39 sentence of randbits(256) ^ extra_entropy ^ time"
+        _seed, sec, cc = ref_seed(ws, p)
+        bad = _check_key(h, sec, cc, n, v, pv, what=f"generate() call {i}")
+        if bad:
+            return bad
+    return None
+
+
+def p_from_shares(kind, entropy, passphrase, pw, net):
+    """HDPrivateKey.from_shares: the SLIP39 recovery (decided by C15) is replaced by a recorder; the shares and the share
+    passphrase go to the recovery, the BIP39 password, path and network go to from_mnemonic"""
+    ws = _sentence(entropy)
+    m = " ".join(ws)
+    shares = ["share one", "share two"]
+    seen = []
+
+    class Recorder:
+        @classmethod
+        def recover_mnemonic(cls, share_mnemonics, passphrase=b""):
+            seen.append((list(share_mnemonics), passphrase))
+            return m
+    F = hd.HDPrivateKey.from_shares
+    calls = {0: (lambda: F(shares), b"", b"", 0, 0),
+             1: (lambda: F(shares, passphrase, pw, "m", NETS[net]), passphrase, pw, 0, net),
+             2: (lambda: F(shares, network=NETS[net], password=pw, passphrase=passphrase), passphrase, pw, 0, net),
+             3: (lambda: F(shares, passphrase, pw, "m/1'", NETS[net]), passphrase, pw, 1, net),
+             4: (lambda: F(shares, password=pw), b"", pw, 0, 0),
+             5: (lambda: F(shares, passphrase), passphrase, b"", 0, 0)}
+    g, wpp, wpw, hardened, n = calls[kind]
+    real = hd.ShareSet
+    hd.ShareSet = Recorder
+    try:
+        h = _tryE(g)
+    finally:
+        hd.ShareSet = real
+    if seen != [(shares, wpp)]:
+        return f"from_shares handed {seen!r} to the share recovery, expected the shares with passphrase {wpp!r}"
+    _seed, sec, cc = ref_seed(ws, wpw)
+    if hardened:
+        idx = 0x80000001
+        csec, ccc, fpr = _ref_hardened_child(sec, cc, idx)
+        return _check_key(h, csec, ccc, n, what="from_shares(..., path=m/1')", depth=1, fpr=fpr, child=idx)
+    return _check_key(h, sec, cc, n, what="from_shares")
+
+
+SLIP39_VECTOR_1 = (b"duckling enlarge academic academic agency result length solution fridge kidney coal piece deal husband "
+                   b"erode duke ajar critical decision keyboard", b"TREZOR", bytes.fromhex("bb54aac4b89dc868ba37d9cc21b2cece"))
+
+
+def p_from_shares_vector(pw):
+    """the first vector of SLIP-0039 (one share, no sharing) all the way through from_shares"""
+    share, pp, secret = SLIP39_VECTOR_1
+    h = _tryE(hd.HDPrivateKey.from_shares, [share.decode()], pp, pw)
+    _seed, sec, cc = ref_seed(_sentence(secret), pw)
+    return _check_key(h, sec, cc, 0, what="from_shares(SLIP-0039 vector 1)")
+
+
+def p_seedpicker(entropy, nfirst, spelling, limit, junk):
+    """calc_valid_seedpicker_checksums(first words): in word-list order exactly the words that complete the sentence to a
+    valid BIP39 mnemonic (2^(11 - checksum bits) of them); anything else about the first words is an error"""
+    ws = _sentence(entropy)[:nfirst]
+    sp = [w if spelling == 0 or (spelling == 2 and i % 2) else w[:4] for i, w in enumerate(ws)]
+    if junk != []:
+        sp[junk[0]] = _txt(junk[1])
+    text = " ".join(sp)
+    want = [w for w in REF_WORDS[0] if ref_decode(text + " " + w) is not None]
+    if limit:
+        want = want[:limit]
+
+    def run():
+        gen = hd.calc_valid_seedpicker_checksums(text)
+        return list(_it.islice(gen, limit)) if limit else list(gen)
+    got = _tryE(run)
+    if not want:
+        if got is not ERR and got != []:
+            return f"checksum words {got[:3]!r} offered for first words that cannot start a valid mnemonic"
+        return None
+    if got is ERR or got != want:
+        return (f"checksum words for {nfirst} first words: got {'an exception' if got is ERR else got[:4]}, the valid "
+                f"completions in word-list order start {want[:4]}")
+    for w in got[:2]:
+        if ref_decode(text + " " + w) != _try(mnemonic.mnemonic_to_bytes, text + " " + w):
+            return "completed sentence does not decode"
+    if not limit and (len(want) != 1 << (11 - (nfirst + 1) // 3)
+                      or _tryE(hd.calc_num_valid_seedpicker_checksums, nfirst) != len(want)):
+        return f"{len(want)} valid checksum words for {nfirst} first words, calc_num_valid_seedpicker_checksums disagrees"
+    return None
+
+
+def p_wordlist_fresh(which):
+    """a newly constructed WordList equals the word file (words, lookup of words and prefixes, iteration, membership),
+    refuses a wrong word count, and constructing it leaves the two shipped lists as they were; keys that are neither
+    text nor int are refused"""
+    fn, n = [("bip39_words.txt", 2048), ("slip39_words.txt", 1024)][which]
+    for bad in (n - 1, n + 1, 0, [2048, 1024][1 - which]):
+        if _tryE(mnemonic.WordList, fn, bad) is not ERR:
+            return f"WordList({fn!r}, {bad}) accepted a wrong word count"
+    wl = _tryE(mnemonic.WordList, fn, n)
+    if wl is ERR:
+        return "WordList(file, count) raised"
+    for obj, words, look in [(wl, REF_WORDS[which], REF_LOOKUP[which]), (WL[0], REF_WORDS[0], REF_LOOKUP[0]),
+                             (WL[1], REF_WORDS[1], REF_LOOKUP[1])]:
+        if list(obj) != words or list(iter(obj)) != words or obj.words != words:
+            return "iteration over the word list is not the word file"
+        it1 = iter(obj)
+        first = next(it1)
+        if [w for w in obj][:3] != words[:3] or next(it1) != words[1] or first != words[0]:
+            return "two iterations over the same word list disturb each other"
+        if obj.lookup != look:
+            return "lookup table is not {word: index} + {first four letters of longer words: index}"
+        for k in (b"abandon", 1.0, None, (0,), words[0].encode()):
+            try:
+                obj[k]
+                return f"WordList[{k!r}] returned a value"
+            except KeyError:
+                pass
+            except Exception as ex:
+                return f"WordList[{k!r}] raised {type(ex).__name__}, not KeyError"
+        if (words[5] in obj) is not True or (words[5][:3] + "#" in obj) or (5 in obj) or (None in obj):
+            return "membership test wrong"
+    return None
+
+
+def p_kdf_entry(kind, msg, salt):
+    """helper.hmac_sha512_kdf with text / bytes in either position: text is UTF-8 encoded"""
+    def conv(v, as_text):
+        return _txt(v) if as_text else (_txt(v).encode("utf-8"))
+    m, s = conv(msg, kind & 1), conv(salt, kind & 2)
+    got = _tryE(helper.hmac_sha512_kdf, m, s)
+    want = hashlib.pbkdf2_hmac("sha512", _txt(msg).encode("utf-8"), _txt(salt).encode("utf-8"), 2048, 64)
+    if got is ERR or got != want:
+        return (f"hmac_sha512_kdf({'str' if kind & 1 else 'bytes'} message, {'str' if kind & 2 else 'bytes'} salt) is not "
+                "PBKDF2-HMAC-SHA512(utf8(message), utf8(salt), 2048, 64)")
+    return None
+
+
+def p_pbkdf2_entry(kind, alg, pw, salt, c, n):
+    """PBKDF2 constructed with optional arguments left out (1000 rounds, SHA-1, HMAC), by keyword, with text arguments,
+    defaults again after an explicit construction; arguments of the wrong type are refused"""
+    name, dig = DIGESTS[alg]
+    ref = hashlib.pbkdf2_hmac
+    if kind == 5:
+        for a, kw in [((5, salt), {}), ((pw, None), {}), ((bytearray(pw), salt), {}), ((pw, salt, 2.0), {}), ((pw, salt, "2"), {}),
+                      ((pw, salt, None), {}), ((pw, salt, 0), {}), ((pw, salt), {"iterations": -1})]:
+            if _tryE(PBKDF2, *a, **kw) is not ERR:
+                return f"PBKDF2{a[2:] or ''} accepted arguments of the wrong type / range"
+        return None
+    tp, ts = _txt(pw), _txt(salt)
+    bp, bs = tp.encode("utf-8"), ts.encode("utf-8")
+    if kind == 3:
+        steps = [(lambda: PBKDF2(tp, ts, c, dig, hmac), name, c), (lambda: PBKDF2(bp, ts, iterations=c), "sha1", c),
+                 (lambda: PBKDF2(tp, bs, c, macmodule=hmac, digestmodule=dig), name, c)]
+    else:
+        pw, salt = bp, bs
+        steps = {0: [(lambda: PBKDF2(pw, salt), "sha1", 1000)],
+                 1: [(lambda: PBKDF2(pw, salt, c), "sha1", c)],
+                 2: [(lambda: PBKDF2(pw, salt, digestmodule=dig), name, 1000), (lambda: PBKDF2(pw, salt, macmodule=hmac), "sha1", 1000)],
+                 4: [(lambda: PBKDF2(pw, salt), "sha1", 1000), (lambda: PBKDF2(pw, salt, c, dig, hmac), name, c),
+                     (lambda: PBKDF2(pw, salt, 0), None, 0), (lambda: PBKDF2(pw, salt), "sha1", 1000),
+                     (lambda: PBKDF2(salt=salt, passphrase=pw, iterations=c), "sha1", c)]}[kind]
+    objs = []
+    for i, (g, d, cc) in enumerate(steps):
+        o = _tryE(g)
+        if d is None:
+            if o is not ERR:
+                return f"construction {i}: iterations 0 accepted"
+            continue
+        if o is ERR:
+            return f"construction {i} raised"
+        objs.append((i, o, d, cc, 0))
+        for k, (j, oj, dj, cj, pos) in enumerate(objs):           # every object made so far reads on from where it was
+            got = _tryE(oj.read, n)
+            if got is ERR or got != ref(dj, bp, bs, cj, pos + n)[pos:]:
+                return (f"object of construction {j} (read again after construction {i}): bytes {pos}..{pos + n} are not those "
+                        f"of hashlib.pbkdf2_hmac({dj}, c={cj})")
+            objs[k] = (j, oj, dj, cj, pos + n)
+    return None
+
+
+def _ref_crypt(word, salt, iterations):
+    if iterations is None or iterations == 400:
+        it, pre = 400, "$p5k2$$" + salt
+    else:
+        it, pre = iterations, "$p5k2$%x$%s" % (iterations, salt)
+    return pre + "$" + _b64.b64encode(hashlib.pbkdf2_hmac("sha1", word, pre.encode("ascii"), it, 24), b"./").decode("ascii")
+
+
+def p_crypt(kind, word, salt, iterations, rand):
+    """pbkdf2.crypt / PBKDF2.crypt: $p5k2$<hex rounds or empty for 400>$<salt>$<base64 ./ of 24 bytes PBKDF2-HMAC-SHA1>;
+    no salt: three 16-bit values of randint (replaced here); a previous result as salt reproduces itself"""
+    iterations = _opt(iterations)
+    w = _txt(word)
+    wb = w.encode("utf-8")
+    s = salt.decode("ascii")
+    f = PBKDF2.crypt if kind & 8 else _pbmod.crypt
+    k = kind & 7
+    if k == 0:                                           # no salt
+        seq = list(rand)
+        old = _pbmod.randint
+        _pbmod.randint = lambda a, b: seq.pop(0) if (a, b) == (0, 0xFFFF) else 1 // 0
+        try:
+            got = _tryE(f, w) if iterations is None else _tryE(f, w, None, iterations)
+        finally:
+            _pbmod.randint = old
+        rs = _b64.b64encode(b"".join(x.to_bytes(2, _sys.byteorder) for x in rand), b"./").decode("ascii")
+        want = _ref_crypt(wb, rs, iterations)
+    elif k == 1:
+        got, want = _tryE(f, w, s, iterations), _ref_crypt(wb, s, iterations)
+    elif k == 2:                                         # bytes word, bytes salt, keyword
+        got, want = _tryE(f, wb, salt=salt, iterations=iterations), _ref_crypt(wb, s, iterations)
+    elif k == 3:                                         # a previous result as the salt: the rounds in it win
+        prev = _ref_crypt(wb, s, iterations)
+        got, want = _tryE(f, w, prev, 7), prev
+        if got == want and _tryE(f, w + "x", prev) == prev:
+            return "crypt gives the same hash for another word"
+    elif k == 4:                                         # defaults again after explicit
+        a, b_, c_ = _tryE(f, w, s), _tryE(f, w, s, iterations), _tryE(f, w, s)
+        got, want = [a, b_, c_], [_ref_crypt(wb, s, None), _ref_crypt(wb, s, iterations), _ref_crypt(wb, s, None)]
+    else:                                                # refused salts
+        got, want = _tryE(f, w, s, iterations), ERR
+    if got is ERR and want is ERR:
+        return None
+    if got is ERR or want is ERR or got != want:
+        return f"crypt: got {'an exception' if got is ERR else got!r}, expected {'a refusal' if want is ERR else want!r}"
+    return None
+
+
+def p_pbkdf2_overflow_retry(alg, pw, salt, c, buf):
+    """a read that would need block 2^32 is refused and leaves the object as it was: the next admissible read still gives
+    the last block(s) (block function written out by hand), and the refusal repeats"""
+    M = 0xFFFFFFFF
+    hl = len(_ref_F(alg, pw, salt, 1, 1))
+    o = PBKDF2(pw, salt, iterations=c, digestmodule=DIGESTS[alg][1], macmodule=hmac)
+    o._PBKDF2__blockNum = M - 2
+    o._PBKDF2__buf = buf
+    stream = buf + _ref_F(alg, pw, salt, c, M - 1) + _ref_F(alg, pw, salt, c, M)
+    if _tryE(o.read, len(stream) + 1) is not ERR:
+        return "read beyond block 2^32-1 returned key bytes"
+    if _tryE(o.hexread, len(stream) + hl) is not ERR:
+        return "hexread beyond block 2^32-1 returned key bytes"
+    k = len(buf) + hl + 1
+    got = _tryE(o.read, k)
+    if got is ERR or got != stream[:k]:
+        return "after a refused read the object no longer continues its stream (state changed by the refused read)"
+    if _tryE(o.read, hl) is not ERR:
+        return "second read beyond block 2^32-1 returned key bytes"
+    got = _tryE(o.read, hl - 1)
+    if got is ERR or got != stream[k:]:
+        return "the remaining bytes of block 2^32-1 are not served after a refused read"
+    if _tryE(o.read, 0) != b"" or _tryE(o.read, 1) is not ERR:
+        return "exhausted object: read(0) / read(1) wrong"
+    return None
+
+
 PROPS = {"roundtrip": p_roundtrip, "accept_iff": p_accept_iff, "lookup_all": p_lookup_all,
          "pbkdf2": p_pbkdf2, "seed": p_seed, "secure": p_secure, "generate": p_generate, "xprv": p_xprv,
          "wordlist_session": p_wordlist_session, "mnemonic_session": p_mnemonic_session,
-         "pbkdf2_session": p_pbkdf2_session}
+         "pbkdf2_session": p_pbkdf2_session,
+         "secure_entry": p_secure_entry, "self_check": p_self_check, "seed_text": p_seed_text,
+         "from_mnemonic_entry": p_from_mnemonic_entry, "generate_entry": p_generate_entry, "from_shares": p_from_shares,
+         "from_shares_vector": p_from_shares_vector, "seedpicker": p_seedpicker, "wordlist_fresh": p_wordlist_fresh,
+         "kdf_entry": p_kdf_entry, "pbkdf2_entry": p_pbkdf2_entry, "crypt": p_crypt,
+         "pbkdf2_overflow_retry": p_pbkdf2_overflow_retry}
 
 # ---------------------------------------------------------------- generators
 
@@ -616,6 +1150,217 @@ def pb_session(ctx):
         else:
             ops.append([k, b"new", 0])
     return [specs, ops]
+
+
+def _entropy_with_words(ctx, nbytes, placed):
+    """random entropy whose sentence has word index idx at position p for every (p, idx) in placed (positions that lie
+    wholly inside the entropy bits)"""
+    ent = nbytes * 8
+    v = int.from_bytes(ctx.rbytes(nbytes), "big")
+    for p, idx in placed:
+        sh = ent - 11 * (p + 1)
+        assert sh >= 0
+        v = (v & ~(2047 << sh)) | (idx << sh)
+    return v.to_bytes(nbytes, "big")
+
+
+def _grind_class(ctx, nwords, cls):
+    """a valid sentence whose words all come from cls (the last word is searched among cls for the checksum)"""
+    r = ctx.rng
+    for _ in range(4000):
+        first = [r.choice(cls) for _ in range(nwords - 1)]
+        for last in r.sample(cls, min(len(cls), 300)):
+            if ref_decode(" ".join(first + [last])) is not None:
+                return first + [last]
+    raise RuntimeError("no sentence found")
+
+
+JUNK = ["zzzz", "0", "-1", "2047", "2048", "Abandon", "ABANDON", "aban.", "aban", "abandonn", "é", "King",
+        "ａｂａｎｄｏｎ", "a\u0000", "None"]
+
+
+def entry_points(ctx, scale=1):
+    """deterministic classes of the entry-point audit (see the predicates above)"""
+    r = ctx.rng
+    W = REF_WORDS[0]
+    SIZES = [16, 20, 24, 28, 32]
+
+    def both(text, label):
+        ctx.label(label)
+        yield ("prop", "accept_iff", [_cps(text)])
+        yield ("corr", "mnemonic_to_bytes", [_cps(text)])
+
+    # --- (d) byte / character classes that random entropy does not show
+    for n in SIZES:
+        for target in (0x00, 0xFF):                      # checksum bits all 0 / all 1
+            while True:
+                e = ctx.rbytes(n)
+                if hashlib.sha256(e).digest()[0] == target:
+                    break
+            ctx.label(f"class/checksum-byte-{target:02x}")
+            yield ("prop", "roundtrip", [e])
+            yield ("corr", "bytes_to_mnemonic", [e, n * 8])
+            yield ("corr", "spec_indices", [e])
+            yield from both(" ".join(_sentence(e)), f"class/checksum-byte-{target:02x}")
+        for e in (b"\x55" * n, b"\xaa" * n, bytes(n - 2) + ctx.rbytes(2), ctx.rbytes(2) + bytes(n - 2), bytes(3) + ctx.rbytes(n - 3)):
+            ctx.label("class/patterned-entropy")
+            yield ("prop", "roundtrip", [e])
+            yield ("corr", "bytes_to_mnemonic", [e, n * 8])
+    by_len = {k: [w for w in W if len(w) == k] for k in range(3, 9)}
+    classes = [("3-letter", by_len[3], 12), ("4-letter", by_len[4], 12), ("4-letter", by_len[4], 24),
+               ("at-most-4", by_len[3] + by_len[4], 18), ("8-letter", by_len[8], 12), ("5-letter", by_len[5], 15),
+               ("one-long-rest-short", None, 12), ("one-short-rest-long", None, 24)]
+    for ci, (name, cls, nw) in enumerate(classes):
+        if cls is None:                                   # the all(...) / any(...) over word lengths differs by one word
+            short, long_ = by_len[3] + by_len[4], by_len[6] + by_len[7] + by_len[8]
+            a, b_ = (short, long_) if name == "one-long-rest-short" else (long_, short)
+            while True:
+                ws = [r.choice(a) for _ in range(nw)]
+                ws[r.randrange(nw - 1)] = r.choice(b_)
+                fit = [w for w in a if ref_decode(" ".join(ws[:-1] + [w])) is not None]
+                if fit:
+                    ws[-1] = fit[0]
+                    break
+        else:
+            ws = _grind_class(ctx, nw, cls)
+        pw = PASSPHRASES[ci % len(PASSPHRASES)]
+        for sp, text in (("full", " ".join(ws)), ("prefix", " ".join(w[:4] for w in ws))):
+            if sp == "prefix" and text == " ".join(ws):
+                continue
+            yield from both(text, f"class/words-{name}/{sp}")
+            if ci % scale == 0:
+                yield ("prop", "seed_text", [text.encode(), pw])
+                yield ("corr", "from_mnemonic", [text.encode(), pw])
+    e = rentropy(ctx, 16)
+    ws = _sentence(e)
+    for text in (" ".join(ws).upper(), " ".join(ws).title(), " ".join(w[:4] for w in ws).upper(), " ".join(ws).swapcase(),
+                 ",".join(ws), " ".join(ws) + ".", "　".join(ws), "​".join(ws), " ".join(ws).replace("a", "ａ")):
+        yield from both(text, "class/whole-sentence-case-or-separator")
+    yield ("prop", "seed_text", [" ".join(ws).upper().encode(), b""])
+    # the sentence is the HMAC key: lengths around the SHA-512 block (128 bytes), where HMAC starts hashing the key
+    need = {127, 128, 129}
+    while need:
+        e = ctx.rbytes(r.choice([24, 28]))
+        text = " ".join(_sentence(e))
+        if len(text) in need:
+            need.discard(len(text))
+            ctx.label(f"class/sentence-{len(text)}-bytes")
+            yield ("prop", "seed_text", [text.encode(), b"" if len(text) == 128 else b"pw"])
+            yield ("corr", "kdf", [text.encode(), b"mnemonic"])
+    for alg in range(3):
+        blk, hl = [128, 64, 64][alg], [64, 32, 20][alg]
+        for L in (blk - 1, blk, blk + 1, 2 * blk):
+            for pw in (ctx.rbytes(L), bytes(L), b"\xff" * L):
+                ctx.label(f"class/pbkdf2-key-length-block{L - blk:+d}" if L < 2 * blk else "class/pbkdf2-key-length-2-blocks")
+                salt = r.choice([b"", bytes(4), b"\xff" * 8, ctx.rbytes(8)])
+                yield ("prop", "pbkdf2", [alg, pw, salt, 2, [hl + 1]])
+                yield ("corr", "pbkdf2_reads", [alg, pw, salt, 2, [hl + 1]])
+    # --- (e) lenient decoding with compensation: an unknown word read as 0 / -1 / 2048 / its first four letters
+    for k in range(ctx.n(3, 12)):
+        n = SIZES[k % 5]
+        nw = n * 8 * 33 // 32 // 11
+        p = r.randrange(1, nw - 1)
+        a = r.randrange(1, 2046)
+        e0 = _entropy_with_words(ctx, n, [(p, 0)])                           # junk read as 0 == "abandon"
+        e1 = _entropy_with_words(ctx, n, [(p - 1, a), (p, 2047)])            # junk read as -1, neighbour + 1
+        e2 = _entropy_with_words(ctx, n, [(p - 1, a), (p, 0)])               # junk read as 2048, neighbour - 1
+        for j in r.sample(JUNK, 5) + ["", "abandon abandon"]:
+            w0 = _sentence(e0)
+            yield from both(" ".join(w0[:p] + [j] + w0[p + 1:]), "lenient/unknown-as-0")
+            w1 = _sentence(e1)
+            yield from both(" ".join(w1[:p - 1] + [W[a + 1], j] + w1[p + 1:]), "lenient/unknown-as--1-compensated")
+            w2 = _sentence(e2)
+            yield from both(" ".join(w2[:p - 1] + [W[a - 1], j] + w2[p + 1:]), "lenient/unknown-as-2048-compensated")
+        if k == 0:
+            yield ("prop", "seed_text", [" ".join(w0[:p] + ["zzzz"] + w0[p + 1:]).encode(), b""])
+        ws = _sentence(rentropy(ctx, n))
+        for p in (0, r.randrange(1, nw - 1), nw - 1):
+            w = ws[p]
+            for j in (w.upper(), w.capitalize(), w[:3], w[:2], w + "x", w + "s", w[:4] + "zz", w[:5], w[:4] + w[:4], w[:4] + ".",
+                      " " + w + "​", w[:4].upper(), w[0] + "́" + w[1:], str(REF_LOOKUP[0][w])):
+                yield from both(" ".join(ws[:p] + [j] + ws[p + 1:]), "lenient/near-spelling-of-the-right-word")
+    # --- (f) the spelling differs between the words: only one word shortened / only one word in full
+    e = rentropy(ctx, 20)
+    ws = _sentence(e)
+    longp = [i for i, w in enumerate(ws) if len(w) > 4]
+    pats = [[longp[0]], [longp[-1]], longp[1:], longp[:-1]]
+    for k, pat in enumerate(pats[: (4 if scale == 1 else 2)]):
+        text = " ".join(w[:4] if i in pat else w for i, w in enumerate(ws))
+        ctx.label("spelling/one-word-differs")
+        yield ("prop", "seed_text", [text.encode(), PASSPHRASES[k + 1]])
+        yield ("corr", "from_mnemonic", [text.encode(), PASSPHRASES[k + 1]])
+        yield from both(text, "spelling/one-word-differs")
+    # --- (a)/(b) entry points and default arguments
+    for which in (0, 1):
+        ctx.label("entry/WordList-constructed")
+        yield ("prop", "wordlist_fresh", [which])
+    kel = [[0, b"norm", _cps("King")], [0, b"idx", _cps("King")], [0, b"in", _cps("King")], [0, b"norm", b"KING"],
+           [0, b"norm", _cps("İtem")], [0, b"norm", _cps("ｋing")], [1, b"norm", b"ACAD"], [0, b"norm", b"king"]]
+    ctx.label("entry/normalize-non-ascii-case")
+    yield ("prop", "wordlist_session", [kel])
+    for kind in range(5):
+        nb = SIZES[kind] * 8
+        extra = [0, 1 << nb, r.getrandbits(nb), r.getrandbits(300), 5][kind]
+        ctx.label("entry/secure_mnemonic-defaults")
+        yield ("prop", "secure_entry", [kind, nb, extra, r.getrandbits(256), r.getrandbits(51)])
+    for kind in range(4):
+        ctx.label("entry/secure_mnemonic-self-check")
+        yield ("prop", "self_check", [kind, SIZES[kind] * 8, r.getrandbits(SIZES[kind] * 8)])
+    V1, V2 = bytes.fromhex("04b2430c"), bytes.fromhex("04b24746")
+    for kind in range(7):
+        ctx.label("entry/from_mnemonic-defaults" if kind != 6 else "entry/from_mnemonic-defaults-after-explicit")
+        yield ("prop", "from_mnemonic_entry", [kind, rentropy(ctx, SIZES[kind % 5]), PASSPHRASES[1 + kind % 4], 1 + kind % 3, V1, V2])
+    e = rentropy(ctx, 16)
+    t = " ".join(_sentence(e)).encode()
+    for (ver, pubver) in (([], V2), (V1, [])):
+        ctx.label("entry/from_mnemonic-one-version-only")
+        yield ("corr", "hd_from_mnemonic", [t, b"x", b"m", 1, ver, pubver])
+    for kind in range(7):
+        ctx.label("entry/generate-defaults-and-versions")
+        yield ("prop", "generate_entry", [kind, ctx.rbytes(5), r.getrandbits(260), r.getrandbits(256), r.getrandbits(51),
+                                          1 + kind % 3, V1, V2])
+    for kind in range(6):
+        ctx.label("entry/from_shares")
+        yield ("prop", "from_shares", [kind, rentropy(ctx, SIZES[kind % 5]), b"share-passphrase", b"bip39-password", 1 + kind % 3])
+    yield ("prop", "from_shares_vector", [b""])
+    # seed picker: complete list for 23 first words, first completions for the other sizes, spellings, refusals
+    ctx.label("entry/seedpicker")
+    yield ("prop", "seedpicker", [rentropy(ctx, 32), 23, 0, 0, []])
+    for k, (n, nfirst) in enumerate([(16, 11), (20, 14), (24, 17), (28, 20)]):
+        ctx.label("entry/seedpicker")
+        yield ("prop", "seedpicker", [rentropy(ctx, n), nfirst, k % 3, 1 if scale > 1 else 2, []])
+    for (nfirst, junk) in ((12, []), (10, []), (22, []), (0, []), (11, [3, b"zzzz"]), (23, [0, b"Abandon"]), (11, [10, b"aban"])):
+        ctx.label("entry/seedpicker-refused" if junk != [10, b"aban"] else "entry/seedpicker")
+        yield ("prop", "seedpicker", [rentropy(ctx, 32), nfirst, 0, 1, junk])
+    for kind in range(4):
+        for (msg, salt) in ((_cps("päß wörd"), _cps("mnemonicパス")), (b"abandon about", b"mnemonic"),
+                            (_cps("\U0001f600"), b"")):
+            ctx.label("entry/kdf-text-or-bytes")
+            yield ("prop", "kdf_entry", [kind, msg, salt])
+    for kind in range(6):
+        for alg in ((0, 1, 2) if kind in (2, 3) else (0,)):
+            ctx.label("entry/PBKDF2-constructor-defaults")
+            pw, salt = (_cps("pässパ"), _cps("sält")) if kind == 3 else (ctx.rbytes(9), ctx.rbytes(8))
+            if kind != 3:
+                pw, salt = bytes(b & 127 for b in pw), bytes(b & 127 for b in salt)      # text == bytes for the reference
+            yield ("prop", "pbkdf2_entry", [kind, alg, pw, salt, r.choice([2, 3, 5]), r.choice([19, 20, 21, 41])])
+    for kind, word, salt, its, rand in [
+            (0, b"secret", b"", [], [0, 65535, 4660]), (8, b"secret", b"", [], [1, 2, 3]), (0, b"secret", b"", 5, [40000, 7, 65535]),
+            (1, b"secret", b"XXXXXXXX", [], []), (1, _cps("päss"), b"ab./09AZ", 400, []), (9, b"", b"salt", 1, []),
+            (1, b"secret", b"", 4096, []), (2, b"secret", b"saltSALT", 10, []), (10, b"pw", b"s", [], []),
+            (3, b"secret", b"XXXXXXXX", [], []), (3, b"secret", b"XXXXXXXX", 1000, []), (11, b"w", b"abc", 17, []),
+            (4, b"secret", b"salt", 3, []), (4, b"secret", b"salt", 401, []),
+            (5, b"x", b"sa lt", [], []), (5, b"x", b"sa+lt", 5, []), (5, b"x", b"$p5k2$0A$salt$h", [], []),
+            (5, b"x", b"$p5k2$0$salt$h", [], []), (5, b"x", b"$p5k2$00a$salt$h", [], []), (5, b"x", b"$p5k2$-1$salt$h", [], []),
+            (13, b"x", b"$p5k2$a$sa,lt$h", [], [])]:
+        ctx.label("entry/crypt" + ("-no-salt" if kind & 7 == 0 else "-refused" if kind & 7 == 5 else ""))
+        yield ("prop", "crypt", [kind, word, salt, its, rand])
+    # --- (g) failure, then the same object again
+    for alg in range(3):
+        for c in (1, 2):
+            for nb in (0, 5):
+                ctx.label("retry/pbkdf2-read-refused-then-read")
+                yield ("prop", "pbkdf2_overflow_retry", [alg, ctx.rbytes(r.choice([0, 7, 70])), ctx.rbytes(6), c, ctx.rbytes(nb)])
 
 
 def histories(ctx):
@@ -909,3 +1654,5 @@ def generate(ctx):
     yield ("corr", "hd_generate", [b"", 0, 1 << 256, 6, 0])
     # --- histories: the same word lists / PBKDF2 objects / functions used repeatedly
     yield from histories(ctx)
+    # --- entry-point audit: alternative entry points, default arguments, hand-built classes, lenient decoding, retries
+    yield from entry_points(ctx)
